@@ -136,7 +136,6 @@ static vrun::Outcome runReq(const vj::Value& c)
 	RecServer srv;
 	srv.filePath = g_base + "/f10";
 	// every header name that occurs in any expected request is looked up in three capitalisations inside the handler
-	const vj::Value& all = c.has("names") ? c["names"] : exp;
 	for (size_t i = 0; i < exp.size(); i++)
 		for (size_t j = 0; j < exp[i]["hs"].size(); j++)
 		{
@@ -145,7 +144,6 @@ static vrun::Outcome runReq(const vj::Value& c)
 			srv.probeNames.push_back(upper(n));
 			srv.probeNames.push_back(capital(n));
 		}
-	(void)all;
 	std::string resp;
 	double dt = runStream(srv, w, resp, (size_t)(c.has("piece") ? c["piece"].i() : 0), 200);
 	char b[160];
@@ -162,6 +160,9 @@ static vrun::Outcome runReq(const vj::Value& c)
 	// "lenient": the stream is outside the strict grammar (bare LF line ends, folded header line): the server may drop the
 	// connection instead of dispatching, but what it dispatches must still be what was sent
 	bool lenient = c["lenient"].b;
+	for (size_t i = 0; i < srv.seen.size() && i < exp.size(); i++)
+		if (exp[i]["cont100"].b && resp.find("HTTP/1.1 100 Continue\r\n\r\n") == std::string::npos)
+			return vrun::Outcome::fail("no interim 100 Continue response to Expect: 100-continue: " + show(resp));
 	vrun::Outcome o;
 	o.nontrivial = w.size() > 0;
 	if (lenient ? srv.seen.size() > exp.size() : srv.seen.size() != exp.size())
